@@ -20,7 +20,7 @@
     }
 //! ---- annotated ----
     pub fn mod_u128(&self, n: u128) -> (r: u64)
-        requires self.wf(),
+        requires self.wfa(),
         ensures r as int == n as int % self.pv(),
     {
         proof { lemma_u128_split(n); }
@@ -33,9 +33,15 @@
         let ghost pi = self.p as int;
         let ghost r = self.r64 as int;
         proof {
+            self.lemma_wfa_cases();
             lemma_mod_bound(two64(), pi);
-            lemma2_to64(); lemma_pow2_strictly_increases(self.s64 as nat + 1, 31);
-            assert(pow2(31) == 0x80000000) by { lemma2_to64_rest(); }
+            if self.p == 2 {
+                assert(two64() % 2 == 0);
+            } else {
+                lemma2_to64(); lemma_pow2_strictly_increases(self.s64 as nat + 1, 31);
+                assert(pow2(31) == 0x80000000) by { lemma2_to64_rest(); }
+            }
+            assert(r == two64() % pi);
             assert(r < pi && pi < 0x80000000);
             lemma_mul_le2(n1 as int, 0xffff_ffff_ffff_ffff, r, 0x80000000);
             lemma_mul_nonneg(n1 as int, r);
